@@ -25,6 +25,24 @@ def tagsFor (n : Nat) : Option (List (List UInt8)) :=
   | 512 => some tags512 | 1024 => some tags1024 | 2048 => some tags2048 | 4096 => some tags4096
   | _ => none
 
+/-- package-`tagSlot` slots per table; closed terms, evaluated once at start-up -/
+def goSlots16 : Array Nat := (tags16.map tagSlot).toArray
+def goSlots32 : Array Nat := (tags32.map tagSlot).toArray
+def goSlots64 : Array Nat := (tags64.map tagSlot).toArray
+def goSlots128 : Array Nat := (tags128.map tagSlot).toArray
+def goSlots256 : Array Nat := (tags256.map tagSlot).toArray
+def goSlots512 : Array Nat := (tags512.map tagSlot).toArray
+def goSlots1024 : Array Nat := (tags1024.map tagSlot).toArray
+def goSlots2048 : Array Nat := (tags2048.map tagSlot).toArray
+def goSlots4096 : Array Nat := (tags4096.map tagSlot).toArray
+
+def goSlotsFor (n : Nat) : Option (Array Nat) :=
+  match n with
+  | 16 => some goSlots16 | 32 => some goSlots32 | 64 => some goSlots64 | 128 => some goSlots128
+  | 256 => some goSlots256 | 512 => some goSlots512 | 1024 => some goSlots1024 | 2048 => some goSlots2048
+  | 4096 => some goSlots4096
+  | _ => none
+
 def hexRaw (bs : List UInt8) : String := if bs.isEmpty then "" else hex bs
 
 def step (line : String) : String :=
@@ -47,10 +65,9 @@ def step (line : String) : String :=
     | some s, some k => s!"node={slotToNode s k}"
     | _, _ => "bad-op"
   | ["bal", n, k] =>
-    match n.toNat?.bind tagsFor, k.toNat? with
-    | some ts, some k =>
-      let nodes := ts.map fun t => slotToNode (tagSlot t) k
-      let counts := nodes.foldl (fun (arr : Array Nat) nd => arr.modify nd (· + 1)) (Array.replicate k 0)
+    match n.toNat?.bind goSlotsFor, k.toNat? with
+    | some sl, some k =>
+      let counts := sl.foldl (fun (arr : Array Nat) s => arr.modify (slotToNode s k) (· + 1)) (Array.replicate k 0)
       let mn := counts.foldl min (counts.getD 0 0)
       let mx := counts.foldl max 0
       s!"min={mn} max={mx} zero={(counts.toList.filter (· == 0)).length}"
